@@ -108,6 +108,13 @@ def build_harness():
         lock_dst = os.path.join(VERIF, "harness", "Cargo.lock")
         if os.path.exists(lock_src) and not os.path.exists(lock_dst):
             shutil.copy(lock_src, lock_dst)
+        # the path dependency follows VERIF_REPO (default /repo), so that a background soak can run against a snapshot of
+        # /repo's HEAD (vp run --with-repo: VERIF_REPO=$VP_RUN_REPO) while seeded changes are tried on /repo itself
+        toml = os.path.join(VERIF, "harness", "Cargo.toml")
+        cur = open(toml).read()
+        want = re.sub(r'bigtools = \{ path = "[^"]*"', 'bigtools = { path = "%s"' % os.path.join(REPO, "bigtools"), cur)
+        if want != cur:
+            open(toml, "w").write(want)
         rc, out = run(["cargo", "build", "--release", "--offline"], cwd=os.path.join(VERIF, "harness"),
                       env={"CARGO_TARGET_DIR": os.path.join(BUILD, "harness-target"), "RUSTFLAGS": CFG})
         return rc == 0, out
